@@ -270,6 +270,22 @@ def copyLoop {α} (a : List α) (len : Nat) (shift : Int) (off : Nat) (l : List 
       | .error e => .error e
       | .ok k => .ok (k, v)) l
 
+/-- one thread's block of a copy loop: `for i in range(h[k], h[k+1]): final_array[i] = a[i + shift]` -/
+def blockCopy {α} (a : List α) (len : Nat) (shift : Int) (h : List Nat) (k : Int) :
+    Except Fault (List (Nat × α)) :=
+  match readAt h k with
+  | .error e => .error e
+  | .ok lo =>
+    match readAt h (k + 1) with
+    | .error e => .error e
+    | .ok hi => copyLoop a len shift 0 (pyRange lo hi)
+
+/-- the body of `for tid in numba.prange(Nthread)` -/
+def fcBody {α} (a1 a2 : List α) (T1 : Nat) (hstart1 hstart2 : List Nat) (tid : Nat) :
+    Except Fault (List (Nat × α)) :=
+  if tid < T1 then blockCopy a1 (a1.length + a2.length) 0 hstart1 (tid : Int)
+  else blockCopy a2 (a1.length + a2.length) (-(a1.length : Int)) hstart2 ((tid : Int) - (T1 : Int))
+
 /-- `blocks H T` stands for `np.rint(np.linspace(0, H, T + 1)).astype(np.int64)` -/
 def fastConcatWith {α} (blocks : Nat → Nat → List Nat) (a1 a2 : List α) (T : Nat) :
     Except Fault (FC α) :=
@@ -290,24 +306,9 @@ def fastConcatWith {α} (blocks : Nat → Nat → List Nat) (a1 a2 : List α) (T
     let T2i := (threadSplit N1 N2 T).2
     if T2i < 0 then .error .rejected           -- linspace with a negative count raises
     else
-      let T2 := T2i.toNat
       let hstart1 := blocks N1 T1
-      let hstart2 := (blocks N2 T2).map (· + N1)
-      match mapE (fun (tid : Nat) =>
-        if tid < T1 then
-          match readAt hstart1 (tid : Int) with
-          | .error e => .error e
-          | .ok lo =>
-            match readAt hstart1 ((tid : Int) + 1) with
-            | .error e => .error e
-            | .ok hi => copyLoop a1 (N1 + N2) 0 0 (pyRange lo hi)
-        else
-          match readAt hstart2 ((tid : Int) - (T1 : Int)) with
-          | .error e => .error e
-          | .ok lo =>
-            match readAt hstart2 ((tid : Int) + 1 - (T1 : Int)) with
-            | .error e => .error e
-            | .ok hi => copyLoop a2 (N1 + N2) (-(N1 : Int)) 0 (pyRange lo hi)) (List.range T) with
+      let hstart2 := (blocks N2 T2i.toNat).map (· + N1)
+      match mapE (fcBody a1 a2 T1 hstart1 hstart2) (List.range T) with
       | .error e => .error e
       | .ok ws => .ok (.fresh (N1 + N2) ws.flatten)
 
